@@ -93,6 +93,9 @@ def run(prop, tier):
         r.saw((c[0][:80], c[1], c[2]), nontrivial=len(c[0]) > 1)
         r.count('status:%s' % (b[-1] if b[0] != -1 else 'parse-error'))
         bm = ' '.join(map(str, b))
+        if a != bm and corr.parse_differs(c[0], 0 if c[2] else 1):
+            r.count('skipped:parse-differs')
+            continue
         if a != bm:
             r.fail(Failure(prop, KIND, {'source': c[0], 'pattern': c[1], 'strict': c[2]},
                            {'implementation': bm[:400]}, {'model': a[:400]},
